@@ -77,9 +77,10 @@ RunIsFilterOf(run, both, np, nn) ==
 (*   x, y                1e-7 pixel (sky position mapped to pixels with    *)
 (*                       the FITS-standard WCS of the test image)          *)
 (*   e_ra, e_dec         1e-7 pixel (reported error / pixel scale)         *)
-(*   a, b                1e-6 arcsec          e_a, e_b   1e-8 arcsec       *)
+(*   a, b                1e-7 pixel (reported arcsec / pixel scale)        *)
+(*   e_a, e_b            1e-9 pixel                                        *)
 (*   pa, e_pa            1e-6 deg; pa in (-90, 90] (an axis)               *)
-(*   isl, src, flags     integers as printed                               *)
+(*   isl, src, flags     integers as printed; src = -1 for an island row   *)
 (*                                                                         *)
 (* Two levels of "equal":                                                  *)
 (*  strict  : 1 ppm relative / 1e-6 pixel / 1 ppm of 180 deg.  The code    *)
@@ -92,23 +93,32 @@ RunIsFilterOf(run, both, np, nn) ==
 (*            rounding (sqrt loss at the arcsin end points), the two       *)
 (*            Levenberg-Marquardt runs stop after different numbers of     *)
 (*            iterations and the results differ by the optimiser's         *)
-(*            termination tolerance (observed: up to 4e-4 relative,        *)
-(*            0.05 of the quoted 1-sigma error, on 0.15 % of the rows).    *)
+(*            termination tolerance.  Measured on 48 000 row pairs:        *)
+(*            99.8 % agree to < 1e-6 relative; components of single-       *)
+(*            component islands differ by <= 0.002 of their quoted 1-sigma *)
+(*            error (errors: <= 4e-4 relative); components of blended      *)
+(*            (multi-component) islands by up to 0.53 sigma with a heavy   *)
+(*            tail (errors: <= 2 %): the deblending fit is ill-conditioned.*)
 (*            The property cannot mean to forbid that, so a value may      *)
-(*            differ by the strict tolerance or by 1/Kappa of the row's    *)
-(*            own quoted 1-sigma error, whichever is larger; quoted        *)
-(*            errors may differ by 1/ErrDiv relative; an angle error       *)
-(*            beyond Unconstrained only says "unconstrained".  A row the   *)
-(*            finder itself flags as a failed fit (FITERR, bit 0) carries  *)
-(*            no errors (-1): only identity, flags and sign are compared.  *)
+(*            differ by the strict tolerance or by a fraction of the row's *)
+(*            own quoted 1-sigma error (1/4; 3 for a blended island),      *)
+(*            whichever is larger; quoted errors may differ by 5 % (25 %   *)
+(*            blended).  The reported angle error is |bearing difference|  *)
+(*            after rotating by the fitted theta error: when that exceeds  *)
+(*            half a turn (circular fit) it is an arbitrary number in      *)
+(*            [0, 360), so it is not compared when the fitted ellipse is   *)
+(*            circular or when either run reports an angle error beyond    *)
+(*            Unconstrained.  A row the finder itself flags as a failed    *)
+(*            fit (FITERR, bit 0) carries no errors (-1): only identity,   *)
+(*            flags and sign are compared.                                 *)
 PpmTol  == 1          \* relative tolerance, parts per million
 PosTol  == 10         \* 1e-6 pixel in units of 1e-7 pixel
 Slack   == 2          \* rounding of the two projected values
 HalfPA  == 180000000  \* 180 deg in units of 1e-6 deg
 PATol   == 180        \* 1 ppm of the half turn
-Kappa   == 4          \* verdict: 1/4 of the quoted 1-sigma error
-ErrDiv  == 20         \* verdict: quoted errors equal within 5 %
 Unconstrained == 30000000   \* 30 deg
+\* verdict level: quoted errors equal within 1/ErrDiv (5 %; 25 % blended)
+ErrDiv(blended) == IF blended THEN 4 ELSE 20
 
 Abs(x) == IF x < 0 THEN -x ELSE x
 Max2(x, y) == IF x >= y THEN x ELSE y
@@ -117,12 +127,17 @@ Max2(x, y) == IF x >= y THEN x ELSE y
 RelTol(x, y) == PpmOf(Max2(Abs(x), Abs(y)), PpmTol) + Slack
 SameRel(x, y) == Within(x, y, RelTol(x, y))
 
-\* 1/Kappa of the larger quoted error (errors logged in units `div` times
-\* finer than the value); 0 when no error is quoted (-1, NaN)
-SigmaTol(e1, e2, div) == LET m == Max2(e1, e2) IN
-                         IF m > 0 THEN m \div (div * Kappa) ELSE 0
+\* the verdict fraction of the larger quoted error: 1/4 sigma, 3 sigma for a
+\* component of a blended island (errors logged in units `div` times finer
+\* than the value); 0 when no error is quoted (-1, NaN); 32-bit safe
+SigmaTol(e1, e2, div, blended) ==
+    LET m == Max2(e1, e2) IN
+    IF m <= 0 THEN 0
+    ELSE IF ~blended THEN m \div (div * 4)
+    ELSE IF m \div div > 700000000 THEN IntMax ELSE 3 * (m \div div)
 
-SameVal(x, y, e1, e2, div) == Within(x, y, Max2(RelTol(x, y), SigmaTol(e1, e2, div)))
+SameVal(x, y, e1, e2, div, blended) ==
+    Within(x, y, Max2(RelTol(x, y), SigmaTol(e1, e2, div, blended)))
 
 \* position angles are axes: equal modulo 180 deg
 PAWithin(x, y, t) ==
@@ -130,10 +145,19 @@ PAWithin(x, y, t) ==
     \/ Within(x, y + HalfPA, t) \/ Within(x + HalfPA, y, t)
 SamePA(x, y) == PAWithin(x, y, PATol)
 
-SameErr(x, y) == Within(x, y, Max2(Abs(x), Abs(y)) \div ErrDiv + Slack)
-SameErrPA(x, y) == SameErr(x, y) \/ (x >= Unconstrained /\ y >= Unconstrained)
+SameErr(x, y, ed) == Within(x, y, Max2(Abs(x), Abs(y)) \div ed + Slack)
+
+Circular(a) == a.a > 0 /\ Within(a.a, a.b, a.a \div 10000)
+SameErrPA(a, b, ed) ==
+    \/ SameErr(a.e_pa, b.e_pa, ed)
+    \/ a.e_pa >= Unconstrained \/ b.e_pa >= Unconstrained
+    \/ Circular(a) /\ Circular(b)
 
 FitFailed(a) == a.flags % 2 = 1
+
+\* a component of an island that has more than one component row
+Blended(A, i) == A[i].src >= 0 /\
+                 \E j \in 1..Len(A) : j # i /\ A[j].isl = A[i].isl /\ A[j].src >= 0
 
 SameIds(a, b)      == a.isl = b.isl /\ a.src = b.src
 SameFlags(a, b)    == a.flags = b.flags
@@ -153,34 +177,36 @@ NegRowStrict(a, b) ==
     /\ PeakNegatedStrict(a, b) /\ IntNegatedStrict(a, b)
     /\ SamePositionStrict(a, b) /\ SameShapeStrict(a, b) /\ SameErrorsStrict(a, b)
 
-\* ---- verdict ----
-PeakNegated(a, b) ==
+\* ---- verdict (bl: the row is a component of a blended island) ----
+PeakNegated(a, b, bl) ==
     /\ SignNegated(a, b)
-    /\ FitFailed(a) \/ SameVal(b.peak, -a.peak, a.e_peak, b.e_peak, 100)
-IntNegated(a, b) ==
-    FitFailed(a) \/ SameVal(b.int_, -a.int_, a.e_int, b.e_int, 100)
-SamePosition(a, b) ==
+    /\ FitFailed(a) \/ SameVal(b.peak, -a.peak, a.e_peak, b.e_peak, 100, bl)
+IntNegated(a, b, bl) ==
+    FitFailed(a) \/ SameVal(b.int_, -a.int_, a.e_int, b.e_int, 100, bl)
+SamePosition(a, b, bl) ==
     \/ FitFailed(a)
-    \/ LET t == Max2(PosTol, SigmaTol(Max2(a.e_ra, a.e_dec), Max2(b.e_ra, b.e_dec), 1))
+    \/ LET t == Max2(PosTol, SigmaTol(Max2(a.e_ra, a.e_dec), Max2(b.e_ra, b.e_dec), 1, bl))
        IN Within(a.x, b.x, t) /\ Within(a.y, b.y, t)
-SameShape(a, b) ==
+SameShape(a, b, bl) ==
     \/ FitFailed(a)
-    \/ /\ SameVal(a.a, b.a, a.e_a, b.e_a, 100)
-       /\ SameVal(a.b, b.b, a.e_b, b.e_b, 100)
-       /\ PAWithin(a.pa, b.pa, Max2(PATol, SigmaTol(a.e_pa, b.e_pa, 1)))
-SameErrors(a, b) ==
-    /\ SameErr(a.e_peak, b.e_peak) /\ SameErr(a.e_int, b.e_int)
-    /\ SameErr(a.e_a, b.e_a) /\ SameErr(a.e_b, b.e_b) /\ SameErrPA(a.e_pa, b.e_pa)
-    /\ SameErr(a.e_ra, b.e_ra) /\ SameErr(a.e_dec, b.e_dec)
+    \/ /\ SameVal(a.a, b.a, a.e_a, b.e_a, 100, bl)
+       /\ SameVal(a.b, b.b, a.e_b, b.e_b, 100, bl)
+       /\ \/ Circular(a) /\ Circular(b)
+          \/ PAWithin(a.pa, b.pa, Max2(PATol, SigmaTol(a.e_pa, b.e_pa, 1, bl)))
+SameErrors(a, b, bl) ==
+    LET ed == ErrDiv(bl) IN
+    /\ SameErr(a.e_peak, b.e_peak, ed) /\ SameErr(a.e_int, b.e_int, ed)
+    /\ SameErr(a.e_a, b.e_a, ed) /\ SameErr(a.e_b, b.e_b, ed) /\ SameErrPA(a, b, ed)
+    /\ SameErr(a.e_ra, b.e_ra, ed) /\ SameErr(a.e_dec, b.e_dec, ed)
 
-NegRow(a, b) ==
+NegRow(a, b, bl) ==
     /\ SameIds(a, b) /\ SameFlags(a, b)
-    /\ PeakNegated(a, b) /\ IntNegated(a, b)
-    /\ SamePosition(a, b) /\ SameShape(a, b) /\ SameErrors(a, b)
+    /\ PeakNegated(a, b, bl) /\ IntNegated(a, b, bl)
+    /\ SamePosition(a, b, bl) /\ SameShape(a, b, bl) /\ SameErrors(a, b, bl)
 
 NegateRun(A, B) ==
     /\ Len(A) = Len(B)
-    /\ \A i \in 1..Len(A) : NegRow(A[i], B[i])
+    /\ \A i \in 1..Len(A) : NegRow(A[i], B[i], Blended(A, i))
 
 NegateRunStrict(A, B) ==
     /\ Len(A) = Len(B)
@@ -188,7 +214,5 @@ NegateRunStrict(A, B) ==
 
 \* every pair satisfies P (only meaningful when the lengths agree)
 AllPairs(A, B, P(_, _)) == \A i \in 1..Len(A) : P(A[i], B[i])
-
-\* the strict relation implies the verdict relation (checked by MC_Polarity
-\* on sample rows): the verdict never rejects what the strict level accepts
+AllPairsBl(A, B, P(_, _, _)) == \A i \in 1..Len(A) : P(A[i], B[i], Blended(A, i))
 =============================================================================
